@@ -13,6 +13,59 @@ CHECKS = {
             "Held on the executions produced; exploration is the right level because the quantifier is over programs x inputs x configurations.",
             "trusted: the 30-line map model, the harness; background flush/compaction timing is whatever the scheduler produced (counted, not controlled)",
             "DESIGN.md 5/C01"),
+    "C02": ("fault_enumeration",
+            "process-kill enumeration at tag-guarded hook sites (SIGKILL to self at (site, n)) + prefix oracle over an issue/ack journal, multi-cycle continuation",
+            "A child process runs a deterministic write program; it is killed at PRNG-chosen (site, hit) pairs drawn from a profile of all hook sites (WAL append/sync/close, memtable insert, "
+            "rotation, SSTable write/rename, compaction swap, engine close); a fresh engine must open the directory and equal model(prefix j) for an admissible j; the directory is continued for further cycles.",
+            "SIGKILL keeps the page cache: lost-fsync is not visible to kills; a kill landing while another goroutine is inside write(2) to the log is excluded by a hook barrier (torn writes: C03/C10)",
+            "DESIGN.md 5/C02"),
+    "C03": ("fault_enumeration",
+            "kill enumeration inside the commit path + concurrent-observer monitor + torn-final-write truncation + failure/rollback trace checks",
+            "Crash atomicity of whole transactions (kills at the hook sites inside AppendBatch/ApplyBatch/Commit, transactions up to ~150KB), observers that read group keys in a known order while "
+            "transactions commit (with yields between the memtable inserts of a batch), log cuts inside the byte range of a final commit, commits on a closed engine, rollbacks, buffer reuse.",
+            "torn writes are simulated by truncation of a cleanly stopped database; plain (non-transactional) scans concurrent with a commit are outside the statement",
+            "DESIGN.md 5/C03"),
+    "C05": ("exploration",
+            "runtime differential monitor: batteries of scan/seek queries vs a sorted model at checkpoints of generated programs; concurrent scanners vs stable keys",
+            "Full/range/prefix/suffix scans, Seek+Next runs, SeekToLast on engine, read-only and read-write transaction iterators (own writes overlaid) compared with the sorted model for data spread "
+            "over memtables, immutable memtables and (multi-block) SSTables; concurrent scans must be ascending, duplicate-free and contain every stable key.",
+            "deletion markers surfaced by engine iterators are legal; thorough tier runs under the race detector",
+            "DESIGN.md 5/C05"),
+    "C09": ("exploration",
+            "runtime differential monitor on pkg/wal: appended list vs ReplayWALDir / per-file replay / GetEntriesFrom",
+            "Generated append/batch/with-sequence sequences with lengths on both sides of every format boundary, rotation and reuse points, all sync modes; replay must return exactly the appended list.",
+            "sequence numbers passed explicitly are increasing (as the replication applier passes them)",
+            "DESIGN.md 5/C09"),
+    "C10": ("fault_enumeration",
+            "fault enumeration on log files (every truncation length / single-byte corruption classes) with prefix+subset oracles at log and engine level, second recovery",
+            "For logs of 10-150 units in 1-3 files with stat-observed unit end offsets: every truncation length (exhaustive for small files) and header/payload corruptions; ReplayWALDir must return "
+            "the intact prefix plus only appended entries; the engine must open, show no foreign key, keep every log file; writes after the recovery must survive the next restart.",
+            "order among survivors of the damaged region is not judged; appended list is read back from the undamaged log",
+            "DESIGN.md 5/C10"),
+    "C11": ("exploration",
+            "runtime differential monitor on pkg/sstable (writer -> reader) + single-byte corruption enumeration",
+            "Ascending entry sets from 1 entry to tens of blocks read back by iteration, Seek (present/between/before/after/block-boundary), SeekToLast and Reader.Get; stratified single-byte "
+            "corruptions must yield an error, a short iteration or only written entries (a panic counts as violation).",
+            "keys non-empty, <= 65535 bytes",
+            "DESIGN.md 5/C11"),
+    "C12": ("exploration",
+            "file-level monitor (newest-wins merged view of all table files before/after each compaction) + engine-level model comparison after reopen on compacted files",
+            "Compaction-dense programs with key locality, tiny memtables and all selection branches; around every triggered/range compaction the merged view of all table files must be unchanged "
+            "(a delete marker may vanish only if no older version remains anywhere), files strictly ascending; reads compared with the model after reopening with the log retired.",
+            "file recency = documented naming (level, creation time); background compaction off in 70% of cases so one compaction is bracketed",
+            "DESIGN.md 5/C12"),
+    "C18": ("exploration",
+            "Go race detector + runtime reference-model monitor on pkg/memtable (sequential and one-writer/many-readers with a published-prefix protocol)",
+            "Arbitrary insert/delete sequences with non-monotone and repeated sequence numbers checked for max-sequence Get, (key asc, seq desc) iteration, Seek, immutability; concurrent readers "
+            "must see sorted traversals containing everything inserted before they started; MemTablePool under concurrent switching; all under -race.",
+            "single writer (as the engine guarantees); ties accept any tied entry",
+            "DESIGN.md 5/C18"),
+    "C20": ("exploration",
+            "runtime differential monitor: Validate vs an independent restatement of the constraints; save/load round trip; directory snapshots; truncated/invalid manifests at engine open",
+            "Thousands of boundary configurations: Validate()==nil iff the documented constraints hold; invalid => nothing written; valid => field-for-field round trip; a database reopens with its "
+            "stored configuration; every truncation of the MANIFEST and invalid rewrites make NewEngineFacade fail without touching any file.",
+            "documented constraints = messages of Validate + docs/config.md; a missing MANIFEST is a new database",
+            "DESIGN.md 5/C20"),
 }
 
 NOT_YET = {}
